@@ -1,7 +1,7 @@
 (* Properties/C12.v — C12: keys never interfere; the order-preserving codec round-trips.
    This file contains only the property theorems (closed by [exact]) and non-vacuity examples. *)
 From ZV Require Import Common.Bytes Codec.Consts Codec.MemCmp Codec.Keys Codec.RangeOps Codec.HIndex Codec.Proofs Codec.Isolation.
-From ZV Require Data.Base Data.Run.
+From ZV Require Data.Base Data.MapK Data.Run.
 Open Scope N_scope.
 
 (* ---------- (a) the memcomparable codec: byte strings ---------- *)
@@ -296,6 +296,32 @@ Theorem C12_delete_table_before_fix_refuted :
 Proof. exact delete_table_without_bitmap_json_refuted. Qed.
 Print Assumptions C12_delete_table_before_fix_refuted.
 
+(* LTRIM dropping more than RangeDeleteNum elements at one end: one engine DeleteRange [key(a), key(b)) over the
+   sequence keys. It removes exactly the elements below the new head / above the new tail of the addressed
+   list, nothing of any other key; the new head survives, and an upper bound one sequence later would take it *)
+Theorem C12_ltrim_head_exact : forall t k head start xs, no_sep t -> len16 k -> Forall wf_ekey xs ->
+  (0 <= head)%Z -> (0 < start)%Z -> int64_ok head -> int64_ok (head + start) ->
+  delete_range (fst (ltrim_head_range t k head start)) (snd (ltrim_head_range t k head start)) (map encode_ekey xs) =
+  map encode_ekey (filter (fun x => negb (is_list_elem_of t k head (head + start - 1) x)) xs).
+Proof. exact ltrim_head_exact. Qed.
+Print Assumptions C12_ltrim_head_exact.
+
+Theorem C12_ltrim_tail_exact : forall t k head stop llen xs, no_sep t -> len16 k -> Forall wf_ekey xs ->
+  (0 <= head)%Z -> (0 <= stop)%Z -> (stop < llen)%Z -> int64_ok head -> int64_ok (head + llen) ->
+  delete_range (fst (ltrim_tail_range t k head stop llen)) (snd (ltrim_tail_range t k head stop llen)) (map encode_ekey xs) =
+  map encode_ekey (filter (fun x => negb (is_list_elem_of t k (head + stop + 1) (head + llen - 1) x)) xs).
+Proof. exact ltrim_tail_exact. Qed.
+Print Assumptions C12_ltrim_tail_exact.
+
+Theorem C12_ltrim_head_bound : forall t k head start, no_sep t -> len16 k ->
+  (0 <= head)%Z -> (0 < start)%Z -> int64_ok head -> int64_ok (head + start) -> int64_ok (head + start + 1) ->
+  in_range (fst (ltrim_head_range t k head start)) (snd (ltrim_head_range t k head start))
+           (encode_ekey (KList t k (head + start))) = false /\
+  in_range (l_encode_list_key t k head) (l_encode_list_key t k (head + start + 1))
+           (encode_ekey (KList t k (head + start))) = true.
+Proof. exact ltrim_head_keeps_new_head. Qed.
+Print Assumptions C12_ltrim_head_bound.
+
 (* ---------- the guards are the ones the code provides, and they are necessary ---------- *)
 
 (* extractTableFromRedisKey yields a ':'-free table and is inverted by packRedisKey *)
@@ -385,6 +411,23 @@ Print Assumptions C12_decode_exp_time_key.
 Theorem C12_decode_exp_meta_key : forall dt k, exp_decode_meta_key (exp_encode_meta_key dt k) = Ok (dt, k).
 Proof. exact exp_decode_meta_key_encode. Qed.
 Print Assumptions C12_decode_exp_meta_key.
+
+(* multi-key reads of the Map model are slot-wise single-key reads (a refused key reads nil / counts 0) *)
+Theorem C12_mget_slotwise : forall compact now ks m,
+  Data.MapK.kquery compact now (Data.MapK.KQmget ks) m =
+  Data.Base.RArr (map (fun k => match Data.MapK.kquery compact now (Data.MapK.KQget k) m with
+                                | Data.Base.RErr => Data.Base.RNil
+                                | r => r
+                                end) ks).
+Proof. exact mget_slotwise. Qed.
+Print Assumptions C12_mget_slotwise.
+
+Theorem C12_exists_slotwise : forall compact now ks m, length ks <> 1%nat ->
+  Data.MapK.kquery compact now (Data.MapK.KQexists ks) m =
+  Data.Base.RInt (Z.of_nat (length (filter (fun k =>
+    match Data.MapK.kquery compact now (Data.MapK.KQexists [k]) m with Data.Base.RInt 1 => true | _ => false end) ks))).
+Proof. exact exists_slotwise. Qed.
+Print Assumptions C12_exists_slotwise.
 
 (* ---------- index keys (hash secondary index) ---------- *)
 
